@@ -226,17 +226,21 @@ CheckDioph(ev) ==
                        ELSE R("V", "diophantine:returned-solution-does-not-satisfy-equation", 0))
   ELSE IF ev.exc = "None" THEN (IF Len(ev.z) = 4 /\ OmMul(OmConjV(ev.z), ev.z) = S2ToOmV(ev.x) THEN R("D", "diophantine:missed-solution", 0) ELSE OK)
   ELSE R("D", "diophantine:exception-" \o ev.exc, 0)
-\* x = <<n, R>>: out = prime factors
+\* x = <<n, R>>: out = prime factors.  The product is checked by successive exact division (no overflow for wrong factors).
+RECURSIVE SeqQuot(_, _, _)
+SeqQuot(n, s, i) == IF i = 0 THEN n ELSE IF s[i] >= 1 /\ n % s[i] = 0 THEN F3(SeqQuot, n \div s[i], s, i - 1) ELSE -1
 CheckFactor(ev) ==
   IF ev.exc # "" THEN (IF ev.exc = "None" THEN OK ELSE R("D", "factorize:exception", ev.x[1]))
-  ELSE IF SeqProd(ev.out, Len(ev.out)) # ev.x[1] THEN R("D", "factorize:product-differs", ev.x[1])
+  ELSE IF SeqQuot(ev.x[1], ev.out, Len(ev.out)) # 1 THEN R("D", "factorize:product-differs", ev.x[1])
   ELSE IF \E m \in 1..Len(ev.out) : ~IsPrimeB(ev.out[m], ev.x[2]) THEN R("D", "factorize:non-prime-factor", ev.x[1])
   ELSE OK
-\* x = <<p>>: out = flattened Z[sqrt2] factors whose product must be +-p
+\* x = <<p>>: out = flattened Z[sqrt2] factors whose product must be +-p (factors are only determined up to units, which
+\* can be large: beyond 2^14 the product is not formed)
 RECURSIVE S2FlatProd(_, _)
 S2FlatProd(s, m) == IF m = 0 THEN S2One ELSE S2Mul(F2(S2FlatProd, s, m - 1), <<s[2 * m - 1], s[2 * m]>>)
 CheckFacS2(ev) ==
   IF ev.exc # "" THEN (IF ev.exc = "None" THEN OK ELSE R("D", "factor-zsqrt2:exception", ev.x[1]))
+  ELSE IF ~(Len(ev.out) \in {2, 4} /\ Within(ev.out, 16384)) THEN R("D", "factor-zsqrt2:not-judged-large-coefficients", ev.x[1])
   ELSE IF S2FlatProd(ev.out, Len(ev.out) \div 2) \in {<<ev.x[1], 0>>, <<-ev.x[1], 0>>} THEN OK
   ELSE R("D", "factor-zsqrt2:product-differs", ev.x[1])
 CheckGcd(ev) ==
